@@ -134,8 +134,17 @@ def rnd_block_flags(rng):
     return rng.choice([0, 0, 0, 1, 2, 4, 16, 0x17, rng.randrange(256)])
 
 
+# payloads that happen to be (canonical or non-canonical) administrative-record encodings, or to look like bundle framing: kept verbatim
+RECORD_LIKE = [bytes.fromhex(x) for x in ("9f0240ff", "82180241aa", "820240", "82018284818100f5f48102820100000000", "8201828481f5", "9fff", "9f", "8202", "82024100",
+                                          "9f8807", "d9d9f7820240", "85070200004100")]
+# block-type-11 data that parses as an RFC 9172 abstract security block header naming blocks 1, 2, 3 as targets
+ASB_LIKE = [bytes.fromhex(x) for x in ("81010100820100", "8201020100820100", "810201018202820101", "83010203010082010081820105", "8101010182016a2f2f6e6f6465312f61")]
+
+
 def rnd_data(rng, btype):
     if btype == 1:
+        if rng.random() < 0.04:
+            return ("DATA", rng.choice(RECORD_LIKE))
         return ("DATA", rnd_bytes(rng, 300))
     if btype == 7:
         return ("AGE", rnd_u64(rng))
@@ -143,6 +152,8 @@ def rnd_data(rng, btype):
         return ("HOP", rng.choice([0, 1, 23, 24, 32, 254, 255, rng.randrange(256)]), rng.choice([0, 1, 23, 24, 254, 255, rng.randrange(256)]))
     if btype == 6:
         return ("PREV", rnd_eid(rng))
+    if btype == 11 and rng.random() < 0.7:
+        return ("UNK", rng.choice(ASB_LIKE))
     if rng.random() < 0.12:
         # opaque data that happens to look like something: a CBOR self-describe tag, an indefinite array, a whole block, valid UTF-8 digits,
         # repeated bytes, a would-be CRC field - kept verbatim whatever it looks like
@@ -158,7 +169,7 @@ UNKNOWN_TYPES = [2, 3, 4, 5, 8, 9, 11, 12, 23, 24, 191, 192, 255, 256, 65536, 2 
 
 def rnd_canonical(rng, btype=None, num=None, crc_kind=None):
     if btype is None:
-        btype = rng.choice([7, 10, 6, rng.choice(UNKNOWN_TYPES), rng.choice(UNKNOWN_TYPES)])
+        btype = rng.choice([7, 10, 6, rng.choice(UNKNOWN_TYPES), rng.choice(UNKNOWN_TYPES), rng.choice(UNKNOWN_TYPES + [11] * 8)])
     if num is None:
         num = rnd_u64(rng)
     return dict(type=btype, num=num, flags=rnd_block_flags(rng), crc=rnd_crc_state(rng, crc_kind), data=rnd_data(rng, btype))
@@ -252,6 +263,12 @@ def zero_crc_bundles():
             out.append(dict(p=dict(prim, crc=state), cs=[dict(plain_pay)]))                      # primary block with CRC 0
             if pays:
                 out.append(dict(p=dict(prim, crc=state), cs=[dict(pays[0], crc=state)]))
+    # a payload block whose correct CRC-32C is exactly 0x00000000 (1 block in 2^32; witness from seeded change C11-m13, re-verified here)
+    z32 = dict(type=1, num=1, flags=0, crc=("E32",), data=("DATA", bytes.fromhex("62703720f81c8f51")))
+    if ref_canonical(z32)[1] == b"\x00\x00\x00\x00":
+        for state in (("E32",), ("V32", b"\x00\x00\x00\x00"), ("V32", b"\x12\x34\x56\x78")):
+            out.append(dict(p=dict(plain_p), cs=[dict(z32, crc=state)]))
+            out.append(dict(p=dict(plain_p, crc=("E32",)), cs=[dict(type=10, num=2, flags=0, crc=("E32",), data=("HOP", 32, 1)), dict(z32, crc=state)]))
     return out
 
 
@@ -506,7 +523,7 @@ def strip_crc_values(b):
 
 # ------------------------------------------------------------------ malformed stream ---------------------
 
-DICT_ITEMS = [b"\x00", b"\x01", b"\x17", b"\x18\x18", b"\x18\xff", b"\x19\x01\x00", b"\x1a\x00\x01\x00\x00", b"\x1b" + b"\xff" * 8,
+DICT_ITEMS = [b"\x78\xc8" + "é".encode() * 100, b"\x79\x01\x2d" + b"x" + "€".encode() * 100, b"\x00", b"\x01", b"\x17", b"\x18\x18", b"\x18\xff", b"\x19\x01\x00", b"\x1a\x00\x01\x00\x00", b"\x1b" + b"\xff" * 8,
               b"\x20", b"\x38\xff", b"\x3b" + b"\xff" * 8, b"\x40", b"\x41\x00", b"\x42\x00\x00", b"\x44\x00\x00\x00\x00", b"\x5f\x41\x00\xff",
               b"\x60", b"\x61\x61", b"\x62\xc3\xa9", b"\x61\xff", b"\x7f\x61\x61\xff", b"\x80", b"\x81\x00", b"\x82\x01\x00", b"\x82\x02\x82\x01\x00",
               b"\x82\x02\x82\x00\x00", b"\x9f\xff", b"\x9f\x00\xff", b"\xa0", b"\xa1\x00\x00", b"\xbf\xff", b"\xc0\x00", b"\xd8\x18\x00", b"\xf4", b"\xf5",
